@@ -90,7 +90,9 @@ Fixpoint block_run (ds : list xdirective) (addr : Z) : out * Z :=
   end.
 
 (* ---- metacommands.repeat: the body is compiled once per repetition, each at the address where the
-   previous one ended *)
+   previous one ended.  Domain: the total number of repetitions compiled by one Compiler stays within
+   MAX_REPETITIONS = 2^16; beyond it the code reports value-out-of-bounds and stops repeating (C08's
+   subject, seeded/revert-C08-repeat-huge) -- that counter is not modelled here. *)
 Fixpoint repeat_run (n : nat) (body : list xdirective) (addr : Z) : out * Z :=
   match n with
   | O => (Out [] [], addr)
